@@ -599,9 +599,11 @@ def symbolic_returns(fn: ast.AST, max_paths: int = 256
 
 class SymPath:
     """One path through a loop-free function / block."""
-    __slots__ = ("conds", "env", "trace", "ret", "retval")
+    __slots__ = ("conds", "env", "trace", "ret", "retval", "stores")
 
-    def __init__(self, conds, env, trace, ret, retval=None):
+    def __init__(self, conds, env, trace, ret, retval=None, stores=()):
+        # subscript stores `a[i] = v` in order: (target with i substituted, v substituted)
+        self.stores = list(stores)
         self.retval = retval  # the returned expression, earlier assignments substituted
         self.conds = conds    # [(test with earlier assignments substituted, polarity)]
         self.env = env        # final symbolic values: names and attribute targets by text
@@ -643,13 +645,13 @@ def symbolic_paths(fn: ast.AST, max_paths: int = 512,
     def sub(e, env):
         return ast.fix_missing_locations(_S(env).visit(copy.deepcopy(e)))
 
-    def go(nid, env, conds, seen, trace, ret, retval=None):
+    def go(nid, env, conds, seen, trace, ret, retval=None, stores=()):
         if nid in seen or nid == RAISE:
             return
         if nid == EXIT:
             if len(out) >= max_paths:
                 raise AnalysisError("symbolic_paths: too many paths")
-            out.append(SymPath(conds, env, trace, ret, retval))
+            out.append(SymPath(conds, env, trace, ret, retval, stores))
             return
         node = cfg.nodes[nid]
         seen = seen + (nid,)
@@ -667,6 +669,8 @@ def symbolic_paths(fn: ast.AST, max_paths: int = 512,
             for tg in tgs:
                 if isinstance(tg, (ast.Name, ast.Attribute)) and ast.unparse(tg) not in opaque:
                     env[ast.unparse(tg)] = val
+                elif isinstance(tg, ast.Subscript):
+                    stores = tuple(stores) + ((ast.unparse(sub(tg, env)), val),)
         elif node.kind == "stmt" and isinstance(st, ast.AugAssign) and isinstance(
                 st.target, (ast.Name, ast.Attribute)):
             env = dict(env)
@@ -677,9 +681,9 @@ def symbolic_paths(fn: ast.AST, max_paths: int = 512,
             lab = cfg.label.get((nid, s_))
             if node.kind == "if" and lab in ("T", "F") and node.expr is not None:
                 go(s_, env, conds + [(sub(node.expr, env), lab == "T")], seen, trace, ret,
-                   retval)
+                   retval, stores)
             else:
-                go(s_, env, conds, seen, trace, ret, retval)
+                go(s_, env, conds, seen, trace, ret, retval, stores)
     go(ENTRY, {}, [], (), [], None)
     return out
 
